@@ -1278,6 +1278,19 @@ def ext_call(it, dotted, args, kw):
         for a in args:
             out.extend(it.iterate(a))
         return out
+    if name in ("itertools.groupby",):
+        # runs of consecutive items with an equal (concrete) key
+        keyf = args[1] if len(args) > 1 else kw.get("key")
+        out = []
+        for x in it.iterate(args[0]):
+            k = it.call(keyf, [x], {}) if keyf is not None else x
+            if not isinstance(k, (str, int, bool, tuple, type(None))) or isinstance(k, tuple) and not all(isinstance(y, (str, int, bool, type(None))) for y in k):
+                raise Undecided(f"itertools.groupby key {k!r}")
+            if out and out[-1][0] == k:
+                out[-1][1].append(x)
+            else:
+                out.append((k, [x]))
+        return out
     if name in ("itertools.zip_longest", "zip_longest"):
         import itertools
         return list(itertools.zip_longest(*[list(it.iterate(a)) for a in args], **kw))
